@@ -32,7 +32,7 @@ LEVEL_NOTE = ("events are >= 3 ms apart and decision windows are 1 ms, so verdic
               "fake API / component graph; warnings (non-critical errors) count as healthy")
 RULE = ("seeded scripts; distinct = canonical script JSON; non-trivial = >=1 fault or silence and >=1 failed set-power "
         "while working")
-REQUIRED_BUCKETS = ["identical-battery-sample-delivered-again-when-too-old", "manager-tier:all-calls-of-the-next-request-succeed", "manager-tier:failed-batteries-reported-uncertain", "fault:state", "fault:relay", "fault:cap", "fault:crit", "fault:stale", "inv-fault:state",
+REQUIRED_BUCKETS = ["pool-identical-failure-message-twice", "messages-stamped-in-a-non-utc-zone", "identical-battery-sample-delivered-again-when-too-old", "manager-tier:all-calls-of-the-next-request-succeed", "manager-tier:failed-batteries-reported-uncertain", "fault:state", "fault:relay", "fault:cap", "fault:crit", "fault:stale", "inv-fault:state",
                     "inv-fault:crit", "silence>maxage:bat", "silence>maxage:inv", "silence<maxage", "set-power-failed",
                     "set-power-succeeded", "blocked-twice(back-off)", "back-off-capped", "recovered", "uncertain-seen",
                     "pool-fallback-to-uncertain", "pool-tier", "pool-fallback-to-uncertain(live)",
@@ -104,7 +104,10 @@ def gen(rng: Any, tier: str, i: int) -> Any:
             ev.append([round(t + 0.006, 3), "sp", k, 0.0])
     # the process may run in a local time zone with daylight saving, and the script may straddle the end of DST
     # (2024-10-27 01:00 UTC): status decisions are about instants, not about the local wall clock
-    return {"events": ev, "local_dst": rng.random() < 0.25}
+    return {"events": ev, "local_dst": rng.random() < 0.25, "msg_tz_min": rng.choice([0, 0, 0, 120, -300, 345])}
+
+
+_MSG_TZ_MIN = [0]
 
 
 def _msgs() -> Any:
@@ -116,7 +119,8 @@ def _msgs() -> Any:
     from .. import batdata
 
     def now() -> datetime:
-        return datetime.now(timezone.utc)
+        # (the same instant, written in the zone the devices stamp their messages in)
+        return datetime.now(timezone.utc).astimezone(timezone(timedelta(minutes=_MSG_TZ_MIN[0])))
 
     base_b = {"cap": 1000.0, "soc": 50.0, "lo": 10.0, "hi": 90.0, "il": -1000.0, "el": 0.0, "eu": 0.0, "iu": 1000.0}
     base_i = {"il": -1000.0, "el": 0.0, "eu": 0.0, "iu": 1000.0}
@@ -205,6 +209,7 @@ async def _drive(case: dict[str, Any], out: dict[str, Any]) -> None:
                 out["statuses"].append((loop.time() - t0, s.value.name))
 
         ct = asyncio.create_task(collect())
+        _MSG_TZ_MIN[0] = int(case.get("msg_tz_min") or 0)
         bmsg, imsg = _msgs()
         last_b: Any = None
         for t, kind, a, b in case["events"]:
@@ -294,6 +299,8 @@ def check(case: dict[str, Any], rec: Any) -> None:
     else:
         run_virtual(lambda: _drive(case, out), monitor=mon)
     rec.count("scripts_run")
+    if case.get("msg_tz_min"):
+        rec.bucket("messages-stamped-in-a-non-utc-zone")
     statuses = out["statuses"]
     events = []
     prev_b: Any = None  # (time sent, fault, age at that time) of the last *new* battery message
@@ -518,7 +525,9 @@ def gen_pool(rng: Any) -> dict[str, Any]:
                        # right after the outcome messages (while a failed battery is still blocked) these batteries
                        # report a faulty state: uncertain -> not working
                        "then_unhealthy": [rng.random() < 0.25 for _ in range(nb)]})
-    return {"tier": "pool", "nb": nb, "phases": phases}
+    # epilogue: the same failure message twice (the second after the first block has run out): blocked again, twice as long
+    return {"tier": "pool", "nb": nb, "phases": phases, "repeat_fail": rng.random() < 0.5,
+            "msg_tz_min": rng.choice([0, 0, 120, -300])}
 
 
 async def _drive_pool(case: dict[str, Any], out: dict[str, Any]) -> None:
@@ -566,6 +575,7 @@ async def _drive_pool(case: dict[str, Any], out: dict[str, Any]) -> None:
                                       max_data_age=timedelta(seconds=MAXAGE), max_blocking_duration=timedelta(seconds=MAXBLOCK),
                                       component_status_tracker_type=_Tracker)
     await asyncio.sleep(0.01)
+    _MSG_TZ_MIN[0] = int(case.get("msg_tz_min") or 0)
     bmsg, imsg = _msgs()
     import dataclasses
 
@@ -617,6 +627,34 @@ async def _drive_pool(case: dict[str, Any], out: dict[str, Any]) -> None:
             t += 0.5
         await pool.update_status({10 + b for b in range(nb)}, set())
         await asyncio.sleep(0.05)
+    if case.get("repeat_fail"):
+        everyone = {10 + b for b in range(nb)}
+
+        async def healthy_for(dur: float) -> None:
+            t = 0.0
+            while t < dur - 1e-9:
+                for b in range(nb):
+                    await api.feed(10 + b, dataclasses.replace(bmsg(None, 0.0), component_id=10 + b))
+                    await api.feed(100 + b, dataclasses.replace(imsg(None, 0.0), component_id=100 + b))
+                await asyncio.sleep(0.1)
+                t += 0.1
+
+        def snap() -> dict[str, Any]:
+            cur = pool._current_status  # noqa: SLF001
+            return {"working": sorted(cur.working), "uncertain": sorted(cur.uncertain)}
+
+        await healthy_for(0.3)
+        await pool.update_status(set(), set(everyone))
+        await healthy_for(1.3)  # the 1 s block has run out, every battery is working again
+        rep = {"before_second": snap()}
+        await pool.update_status(set(), set(everyone))  # the identical outcome once more
+        await healthy_for(0.3)
+        rep["after_second"] = snap()
+        await healthy_for(1.2)  # 1.5 s after the second failure: a doubled block (2 s) is still running
+        rep["1.5s_after_second"] = snap()
+        out["repeat"] = rep
+        await pool.update_status(set(everyone), set())
+        await asyncio.sleep(0.05)
     await asyncio.sleep(0.05)
     counter_task.cancel()
     await pool.stop()
@@ -664,6 +702,14 @@ def check_pool(case: dict[str, Any], rec: Any) -> None:
             rec.bucket("pool-fallback-to-uncertain(live)")
         if cp["get_working"] != exp_get:
             rec.violation("pool-get_working_components-wrong", {**w, "expected": exp_get})
+    rep = out.get("repeat")
+    if rep is not None:
+        rec.bucket("pool-identical-failure-message-twice")
+        everyone = [10 + b for b in range(nb)]
+        if rep["before_second"]["working"] != everyone:
+            rec.harness_problem(f"pool epilogue: batteries not all working before the second failure: {rep}")
+        elif rep["after_second"]["uncertain"] != everyone or rep["1.5s_after_second"]["uncertain"] != everyone:
+            rec.violation("repeated-failure-does-not-block-again-for-the-doubled-period", {"batteries": nb, "observed": rep})
     rec.nontrivial(True)
     rec.observed({"tier": "pool", "checkpoints": out["checkpoints"][:2]})
 
